@@ -17,9 +17,9 @@ func ruleClientRegistrationPairing(c *Ctx, rule string) {
 	// (a) unary: registration followed, with no exit in between, by the deferred unregistration
 	f := p.MustFn("client.RpcMultiplexer.CallUnaryMethod")
 	reg := p.oneCall(f, "client.RpcMultiplexer.registerHandler", false)
+	dfr, _ := p.deferredCallTo(f, "client.RpcMultiplexer.unregisterHandler")
 	isDeferUnreg := func(i ssa.Instruction) bool {
-		d, ok := i.(*ssa.Defer)
-		return ok && d.Call.StaticCallee() != nil && p.fnKey(d.Call.StaticCallee()) == "client.RpcMultiplexer.unregisterHandler"
+		return dfr != nil && i == ssa.Instruction(dfr)
 	}
 	// an exit under "registration refused" (registerHandler returned an error) is not a leak, provided a refusing
 	// registerHandler has not inserted anything
